@@ -8,10 +8,10 @@ import (
 
 func init() { register("C11", checkC11) }
 
-var errCompounds = []string{"abs(`\"a\"`)", "nosuch(@)", "length(@, @)", "(@[::0])", "max(`[1, \"a\"]`)", "sort_by(@, &k)"}
+var errCompounds = []string{"abs(`\"a\"`)", "nosuch(@)", "length(@, @)", "(@[::0])", "max(`[1, \"a\"]`)", "sort_by(@, &k)", "sum(`[1, null]`)", "sort(`[\"b\", true]`)"}
 
 func checkC11(r *harness.Run) harness.Coverage {
-	r.Rule = "erroring sub-expressions {abs(`\"a\"`) invalid type, nosuch(@) unknown function, length(@,@) invalid arity, (@[::0]) zero step, max(`[1,\"a\"]`) mixed array, sort_by(@,&k) inconsistent keys} placed in every one-hole context up to the structural weight bound over all constructs (each operand of every operator, left / right-hand side / condition of each projection kind, argument positions, expression-reference bodies, multi-select members, hash values, pipe sides) x documents that make the hole evaluated and documents that leave it unevaluated. Oracle: the reference evaluator decides whether the error is reached (under every admissible member order); if so Search must return an error. Non-trivial = reference outcome is an error or a non-null value; distinct by (expression, document)"
+	r.Rule = "erroring sub-expressions {abs(`\"a\"`) invalid type, nosuch(@) unknown function, length(@,@) invalid arity, (@[::0]) zero step, max(`[1,\"a\"]`) mixed array, sort_by(@,&k) inconsistent keys, sum(`[1,null]`) / sort(`[\"b\",true]`) array with a null / boolean element} placed in every one-hole context up to the structural weight bound over all constructs (each operand of every operator, left / right-hand side / condition of each projection kind, argument positions, expression-reference bodies, multi-select members, hash values, pipe sides) x documents that make the hole evaluated and documents that leave it unevaluated. Oracle: the reference evaluator decides whether the error is reached (under every admissible member order); if so Search must return an error. Non-trivial = reference outcome is an error or a non-null value; distinct by (expression, document)"
 	r.Assumptions = []string{"which operands are evaluated: model/eval.go (short-circuit ||/&&, projections over zero elements / non-matching left sides)", "contexts bounded by the weight bound"}
 	maxW := 5
 	if r.Thorough() {
